@@ -16,8 +16,9 @@ if [ "$passed" -lt 46 ]; then ctest --test-dir _build --rerun-failed --timeout 9
 echo "CONFIRM $ID: ctest passed=$passed with the change"
 build_demo() {
   if [ -f $O/demo.cpp ]; then
-    g++ -std=c++20 -O1 -g -Iinclude -I. -Itests -fno-access-control $O/demo.cpp _build/libephemeralnet_core.a -lcurl -lpthread -o /tmp/seed_${ID}_demo 2>/tmp/seed_${ID}_demo_build.log || { echo "demo build failed"; tail -5 /tmp/seed_${ID}_demo_build.log; return 98; }
-    timeout 300 /tmp/seed_${ID}_demo >/tmp/seed_${ID}_demo.out 2>&1; return $?
+    # the demo's header comment gives its build line (some demos compile daemon / relay sources of the tree in)
+    bash -c "$(/verif/tools/demo_build_cmd.py $O/demo.cpp /tmp/seed_${ID}_demo)" 2>/tmp/seed_${ID}_demo_build.log || { echo "demo build failed"; tail -5 /tmp/seed_${ID}_demo_build.log; return 98; }
+    timeout 600 /tmp/seed_${ID}_demo >/tmp/seed_${ID}_demo.out 2>&1; return $?
   elif [ -f $O/demo.sh ]; then
     timeout 600 bash $O/demo.sh $W >/tmp/seed_${ID}_demo.out 2>&1; return $?
   fi
